@@ -121,15 +121,19 @@ func (p *Prog) files() map[string]string {
 	return out
 }
 
-func (pr *printer) results(rs []Res) string {
+func (pr *printer) results(rs []Res, grouped bool) string {
 	if len(rs) == 0 {
 		return ""
 	}
 	var s []string
 	named := false
-	for _, r := range rs {
+	for i, r := range rs {
 		if r.Name != "" {
 			named = true
+			if grouped && i+1 < len(rs) && rs[i+1].Name != "" && tyGo(rs[i+1].Ty, pr.pkg) == tyGo(r.Ty, pr.pkg) {
+				s = append(s, r.Name) // `r0, r1 T`
+				continue
+			}
 			s = append(s, r.Name+" "+tyGo(r.Ty, pr.pkg))
 		} else {
 			s = append(s, tyGo(r.Ty, pr.pkg))
@@ -147,7 +151,7 @@ func (pr *printer) fn(f *Func) {
 	if f.Method {
 		w.WriteString("(t *T) ")
 	}
-	fmt.Fprintf(w, "%s(n int, e error, cb %s)%s {\n", f.Name, tyGo(Ty{K: "func", P: f.Cb}, pr.pkg), pr.results(f.Res))
+	fmt.Fprintf(w, "%s(n int, e error, cb %s)%s {\n", f.Name, tyGo(Ty{K: "func", P: f.Cb}, pr.pkg), pr.results(f.Res, f.Grouped))
 	pr.stmts(f.Body)
 	w.WriteString("}\n\n")
 }
@@ -241,7 +245,7 @@ func (pr *printer) expr(e *Expr) {
 		w.WriteString(")")
 	case "lit":
 		f := pr.p.Funcs[e.F]
-		fmt.Fprintf(w, "func()%s {\n", pr.results(f.Res))
+		fmt.Fprintf(w, "func()%s {\n", pr.results(f.Res, f.Grouped))
 		pr.stmts(f.Body)
 		w.WriteString("}")
 	}
